@@ -102,7 +102,7 @@ PROPS = {
         "assumptions": ["Go pointer sharing of the end marker is unobservable (Insert never descends into it; shown by the model's case split and exercised by the suite)"],
     },
     "C16": {
-        "proof_modules": ["GrolProofs.Props.C16"],
+        "proof_modules": ["GrolProofs.Props.C16", "GrolProofs.LexStream"],
         "theorems": ["Grol.Lexer.C16.cases", "Grol.Lexer.C16.progress", "Grol.Lexer.C16.tiling", "Grol.Lexer.C16.flags",
                      "Grol.Lexer.C16.literal_span", "Grol.Lexer.C16.string_span", "Grol.Lexer.C16.linecomment_span",
                      "Grol.Lexer.C16.blockcomment_span", "Grol.Lexer.C16.no_nil_no_panic", "Grol.Lexer.C16.sticky_step",
@@ -110,7 +110,12 @@ PROPS = {
                      "Grol.Lexer.C16.lookupIdent_keyword", "Grol.Lexer.C16.keywords_never_ident",
                      "Grol.Lexer.C16.intern_unique", "Grol.Lexer.C16.interning_partial", "Grol.Lexer.C16.next_wf",
                      "Grol.Lexer.C16.initTable_nodup", "Grol.Lexer.resolve_den", "Grol.Lexer.nextCore_spec", "Grol.Lexer.readStringLoop_spec",
-                     "Grol.Lexer.blockLoop_spec", "Grol.Lexer.readNumber_spec", "Grol.Lexer.skipWhitespace_spec"],
+                     "Grol.Lexer.blockLoop_spec", "Grol.Lexer.readNumber_spec", "Grol.Lexer.skipWhitespace_spec",
+                     "Grol.Lexer.C16.interning", "Grol.Lexer.C16.interning_lexer", "Grol.Lexer.den_inj", "Grol.Lexer.resolveAll_den",
+                     "Grol.Lexer.appendRune_eq", "Grol.Lexer.readStringLoop_agree", "Grol.Lexer.readString_eq_spec",
+                     "Grol.Lexer.C16.string_literal", "Grol.Lexer.C16.unterminated_string",
+                     "Grol.Lexer.skipWhitespace_flags", "Grol.Lexer.C16.lineInv_next", "Grol.Lexer.C16.lastNewLine_le",
+                     "Grol.Lexer.C16.flags_exact", "Grol.Lexer.C16.after_linecomment", "Grol.LexStream.lexer_streamWF"],
         "suites": ["lex"],
         "rule": "lex suite: every case is one byte string in one lexer mode (f = lexer.NewBytes, l = lexer.NewLineMode); the observation is "
                 "every NextToken call up to the first end marker plus 3 more calls (type, literal, Pos before/after, HadWhitespace, "
@@ -195,7 +200,7 @@ PROPS = {
                      "Grol.Memory.C09.mapAppend_sound", "Grol.Memory.C09.range_sound", "Grol.Memory.mulLen_spec",
                      "Grol.Depth.C09.depth_invariant", "Grol.Depth.C09.reset_restores", "Grol.Depth.C09.chain_ok_iff", "Grol.Depth.run_ok_balanced",
                      "Grol.Generated.LoopFacts.C09.loops_classified", "Grol.Generated.LoopFacts.C09.polling_loops_poll",
-                     "Grol.Generated.LoopFacts.C09.bare_for_loops",
+                     "Grol.Generated.LoopFacts.C09.bare_for_loops", "Grol.Generated.LoopFacts.C09.guarded_loops_guards",
                      "Grol.Memory.C09.strConcat_sound", "Grol.Depth.C09.chainOk_spec", "Grol.Depth.C09.unbounded_recursion_guarded"],
         "suites": ["memory", "bounded"],
         "rule": "memory suite, 10^5 cases (quick). g: object.SizeOk(n) with the process memory limit set to one of {1, 2^20, 2^26, 2^30, 2^40, 2^62, max}, "
@@ -213,7 +218,10 @@ PROPS = {
                 "argument, mutual, through a closure, through `self`, non-tail), terminating recursion just below/above each limit (need measured in process; default "
                 "depth: extrapolated), nested closures, huge operands (\"ab\"*N, [1]*N, 0:N, a+a, four string doublings) on both sides of the budget, growth in a loop "
                 "(array/string doubling, s*2, map merges, append, nesting), source text nested 10^4..4*10^4 deep (parens, brackets, `- `, `!`, if-blocks, calls, func "
-                "literals, a left-deep + chain; blocks 1000..4000; thorough: 10^6), values with shared structure (a=[a,a] 8..15 times, then a==a / println(a)), sleep(10). Measured per run: exit status, result kind, wall time inside "
+                "literals, a left-deep + chain; blocks 1000..4000; thorough: 10^6), values with shared structure (a=[a,a] 8..15 times, then a==a / println(a)), huge count x EMPTY operand under a 100 ms / 1 s deadline "
+                "([]*N, x[3:3]*N, (0:0)*N, (k:k)*N, \"\"*N, \"abc\"[3:3]*N, and counted loops of N merges of {} / []; N in {2^40, 2^62, 2^62+1, 2^63-1}; these "
+                "children are killed 8 s after the deadline, at most 2 killed runs are repeated), counts whose product with the operand length wraps "
+                "([1,2,3,4]*N, [1,2]*N, \"abcd\"*N), sleep(10). Measured per run: exit status, result kind, wall time inside "
                 "EvalStringWithOption, peak RSS (VmHWM). Statement (lean/Grol/BoundedSuite.lean): exit 0, wall <= deadline + 3000 ms, RSS <= 4 x limit, result kind allowed "
                 "for the family (loops: deadline; unbounded recursion: depth, or deadline when one is set; huge operands: refused or within the budget; never a stray Go panic). "
                 "The driver predicts the result kind from Grol.Memory / Grol.Depth where it can (compared: agree) — wall time and RSS are never predicted.",
@@ -225,7 +233,9 @@ PROPS = {
             "GOMEMLIMIT accounting (what FreeMemory() returns) is accurate",
             "generated on every run (lean/Grol/Generated/LoopFacts.lean, harness/cmd/harness/extract_loops.go, syntactic): every `for`/`range` statement of packages eval and "
             "object and of repl.EvalStringWithOption/EvalOne/evalOne/logParserErrors with its header text and whether its body calls a context-polling evaluator entry point; "
-            "the CLASSIFICATION of each loop (polls / bounded by container / guarded allocation / constant / frames) is by hand, with a one-line reason each",
+            "the CLASSIFICATION of each loop (polls / bounded by container / guarded allocation / constant / frames) is by hand, with a one-line reason each; "
+            "for the two guarded-allocation loops the extractor also records what dominates the loop in its statement list (early-return conditions, MulLen / MustBeOk / "
+            "MakeObjectSlice calls, in order) and C09.guarded_loops_guards pins that text",
             "MEASURED, not proved (bounded suite): wall-clock time after the deadline, peak RSS, survival of the process (Go stack growth, GC behaviour, scheduler latency); "
             "thresholds are the named constants slackMs, rssFactor, memLimitKB of lean/Grol/BoundedSuite.lean; timing depends on the machine and its load",
             "NOT covered: loops inside extensions/, ast/ (printer), parser/, lexer/ and the Go standard library; the other MustBeOk call sites in extensions (str functions) and "
@@ -287,7 +297,8 @@ PROPS = {
     "C08": {
         "generated": True,
         "proof_modules": ["GrolProofs.Props.C08", "GrolProofs.Precedence"],
-        "theorems": ["Grol.C08.parser_never_panics", "Grol.C08.printer_never_panics", "Grol.C08.partial",
+        "theorems": ["Grol.C08.front_end_total", "Grol.C08.parse_good", "Grol.C08.safe_always", "Grol.Parser.parseProgram_good", "Grol.Parser.allSpec",
+                     "Grol.C08.parser_never_panics", "Grol.C08.printer_never_panics", "Grol.C08.partial",
                      "Grol.Parser.parseProgram_no_panic", "Grol.Parser.allSafe", "Grol.Parser.streamWF_of_b",
                      "Grol.Printer.printProgram_no_panic", "Grol.Printer.infix_tokens_have_precedence",
                      "Grol.Printer.index_tokens_have_precedence", "Grol.Printer.postfix_tokens_have_precedence",
@@ -352,7 +363,7 @@ PROPS = {
     "C03": {
         "generated": True,
         "proof_modules": ["GrolProofs.Props.C03", "GrolProofs.Props.C08"],
-        "theorems": ["Grol.C03.ends_with_newline", "Grol.Printer.printNode_frame", "Grol.C03.model_is_stateless",
+        "theorems": ["Grol.C03.ends_with_newline", "Grol.C03.exactly_one_newline", "Grol.Printer.printNode_P", "Grol.Printer.printNode_frame", "Grol.C03.model_is_stateless",
                      "Grol.C03.witness_not_idempotent", "Grol.C08.printer_never_panics"],
         "suites": ["format03"],
         "rule": _FRONT_RULE + " format03 suite: same cases as the format suite; statement = second-pass text byte-identical to the first "
